@@ -7,7 +7,7 @@ use crate::hasher::{sha256::Sha256_256, HashChain};
 pub enum LmsAlgorithm {
     #[default]
     LmsReserved = 0,
-    #[cfg(test)]
+    #[cfg(any(test, feature = "hbs_lms_verif"))]
     LmsH2 = 1,
     LmsH5 = 5,
     LmsH10 = 6,
@@ -19,7 +19,7 @@ pub enum LmsAlgorithm {
 impl From<u32> for LmsAlgorithm {
     fn from(_type: u32) -> Self {
         match _type {
-            #[cfg(test)]
+            #[cfg(any(test, feature = "hbs_lms_verif"))]
             1 => LmsAlgorithm::LmsH2,
             5 => LmsAlgorithm::LmsH5,
             6 => LmsAlgorithm::LmsH10,
@@ -39,7 +39,7 @@ impl LmsAlgorithm {
     pub fn construct_parameter<H: HashChain>(&self) -> Option<LmsParameter<H>> {
         match *self {
             LmsAlgorithm::LmsReserved => None,
-            #[cfg(test)]
+            #[cfg(any(test, feature = "hbs_lms_verif"))]
             LmsAlgorithm::LmsH2 => Some(LmsParameter::new(1, 2)),
             LmsAlgorithm::LmsH5 => Some(LmsParameter::new(5, 5)),
             LmsAlgorithm::LmsH10 => Some(LmsParameter::new(6, 10)),
@@ -51,7 +51,7 @@ impl LmsAlgorithm {
 
     pub fn get_from_type<H: HashChain>(_type: u32) -> Option<LmsParameter<H>> {
         match _type {
-            #[cfg(test)]
+            #[cfg(any(test, feature = "hbs_lms_verif"))]
             1 => LmsAlgorithm::LmsH2.construct_parameter(),
             5 => LmsAlgorithm::LmsH5.construct_parameter(),
             6 => LmsAlgorithm::LmsH10.construct_parameter(),
